@@ -26,6 +26,7 @@ func init() {
 		prefixResolution(c, "C01.R10")
 		c.Borrow("C02", "C02.P8", "C01.R11", "generated rule names are unique within a policy: the fresh-name counter is never reset while a compilation may be running (two rules with one name are silently unioned, so a constraint on one property sees another's values)", 1, nil)
 		everyTypeIndexed(c, "C01.R15")
+		c01OwnPathInConstraints(c)
 		c01ExactValueText(c)
 		c01IndependentKeys(c)
 		c.Borrow("C07", "C07.H1", "C01.R12", "no quantified-variable name is also a local name fixed by a template (the two would be unified, and the nodes under that variable count as satisfying)", 3, nil)
@@ -86,6 +87,7 @@ func init() {
 	extras["C18"] = func(c *Ctx) {
 		c18LibraryIsSilent(c)
 		c18ArgumentCounts(c)
+		c18CommandsDispatched(c)
 		c.R.Rule("C18.W10", "what the library returns for two texts does not depend on the profiles compiled earlier in the process (a fresh command-line process has compiled none): the shared default prefix table is copied, never written", 1)
 		prefixResolution(c, "C18.W10")
 		c.Borrow("C09", "C09.S1", "C18.W12", "the public entry points hand the caller's texts and configurations to the validator unchanged: the command-line front end calls the validator directly, so anything the public wrapper does to a text first (a byte order mark stripped, blanks trimmed) makes the library's answer differ from what the command prints", 3, func(o Obligation) bool {
@@ -3690,5 +3692,103 @@ func c02ReferencedNodesIndexed(c *Ctx) {
 	}
 	if !found {
 		r.Unknown("C02.P15", "indexer", "", "the function that builds the @ids index was not found")
+	}
+}
+
+// c01OwnPathInConstraints (R16): every atomic constraint that the constraint parser builds for a property is about THAT
+// property: the Path of each atomic statement built while ParseConstraint is evaluated (constructors interpreted, E-sym) is
+// ParseConstraint's own path parameter - never the other path of a property comparison (swapped, `a >= b` is checked as
+// `b >= a`), never a path invented on the way.  Found by the second mutation survey (swapped arguments survive the suite).
+func c01OwnPathInConstraints(c *Ctx) {
+	r, p := c.R, c.P
+	r.Rule("C01.R16", "every atomic constraint built for a property has that property's path as its Path (the other path of a comparison is its argument)", 1)
+	fd, pk := p.FuncDecl("internal/parser/profile", "ParseConstraint")
+	if fd == nil || fd.Type.Params == nil {
+		r.Unknown("C01.R16", "constraint-parser", "", "ParseConstraint not found")
+		return
+	}
+	// the path parameter: the first parameter whose type is the property-path interface
+	idx, n := -1, 0
+	for _, f := range fd.Type.Params.List {
+		for _, nm := range f.Names {
+			if o := pk.TypesInfo.Defs[nm]; o != nil && idx < 0 && typeName(o.Type()) == "PropertyPath" {
+				idx = n
+			}
+			n++
+		}
+	}
+	if idx < 0 {
+		r.Unknown("C01.R16", "path-parameter", p.Pos(fd.Pos()), "ParseConstraint has no parameter of the property-path type")
+		return
+	}
+	// (only the statements built by ParseConstraint itself and by the constructors it calls directly: a nested expression
+	// parsed on the way has constraints of its own, under their own paths)
+	var prm types.Object
+	k := 0
+	for _, f := range fd.Type.Params.List {
+		for _, nm := range f.Names {
+			if k == idx {
+				prm = pk.TypesInfo.Defs[nm]
+			}
+			k++
+		}
+	}
+	built, ok := 0, true
+	proto := &symWalker{Inline: samePkgInline(pk)}
+	proto.OnStruct = func(w *symWalker, lit *ast.CompositeLit, val *Sym) {
+		if w.depth > 3 || val.Type == nil || typeName(val.Type) != "AtomicStatement" {
+			return
+		}
+		v, has := val.Fields["Path"]
+		if !has {
+			return
+		}
+		built++
+		if v == nil || v.K != symVar || v.Obj != prm {
+			ok = false
+		}
+	}
+	p.SymWalk(pk, fd, proto, nil)
+	ok = ok && built > 0
+	r.Analysed["R16_atomic_statements_built"] = built
+	r.Check(ok, "C01.R16", "internal/parser/profile.ParseConstraint#own-path", p.Pos(fd.Pos()), "every atomic statement built for the property carries the property's own path", "an atomic statement built while the constraints of a property are parsed does not carry that property's path as its Path (arguments of a constructor swapped?): the constraint is evaluated on another path than the one it is written under")
+}
+
+// c18CommandsDispatched (W13): `acv <command> ...` runs the command: every exported command function of cmd/commands
+// that takes no parameters (Validate, Generate, Normalize, Compile, Help, ...) is called from the main package.  A case
+// of the dispatch that does nothing exits 0 without printing anything.  Found by the second mutation survey.
+func c18CommandsDispatched(c *Ctx) {
+	r, p := c.R, c.P
+	r.Rule("C18.W13", "every command function is called by the dispatch in main", 3)
+	n := 0
+	for _, fn := range p.ModuleFuncs() {
+		if RelPkg(fn) != "cmd/commands" || fn.Object() == nil || !fn.Object().Exported() || fn.Signature.Recv() != nil || fn.Signature.Params().Len() != 0 || fn.Parent() != nil {
+			continue
+		}
+		n++
+		// called, or handed to the dispatch as a value (a table from command words to functions)
+		called := false
+		for _, g := range p.SSA.ImportedPackage(ModulePath + "/cmd").Members {
+			mf, ok := g.(*ssa.Function)
+			if !ok {
+				continue
+			}
+			fns := append([]*ssa.Function{mf}, mf.AnonFuncs...)
+			for _, h := range fns {
+				for _, b := range h.Blocks {
+					for _, ins := range b.Instrs {
+						for _, op := range ins.Operands(nil) {
+							if *op == ssa.Value(fn) {
+								called = true
+							}
+						}
+					}
+				}
+			}
+		}
+		r.Check(called, "C18.W13", FuncKey(fn)+"#dispatched", p.Pos(fn.Pos()), "called from main", "the command function is never called from the main package: `acv` with this command does nothing and exits 0 without printing the library's result")
+	}
+	if n == 0 {
+		r.Unknown("C18.W13", "commands", "", "no exported parameterless function found in cmd/commands")
 	}
 }
